@@ -19,9 +19,10 @@
 (C) seeded random histories of 15-40 commits with seeded negotiations are recorded and validated by
     spec/TraceNegotiate.tla, which computes every set itself.
 
-Universes: quick   small = 1..3 commits, every ref set, wants <= 3, rich two-round variants, (A) under all clocks;
+Universes: quick   small = 1..3 commits, every ref set, wants <= 3, (A) under all clocks;
                    n4    = 4 commits, refs = the heads or one commit, wants <= 2, (A) under the topological clock;
-           thorough small; n4 = 4 commits, every ref set, wants <= 3, rich variants, (A) under all clocks;
+           thorough small and n4 = 4 commits: every ref set, wants <= 3, rich two-round variants (have sets of up
+                           to two hashes in each round), (A) under all clocks;
                    n5    = 5 commits, refs = heads or one commit, wants <= 2, a 1-in-SLICES slice of the
                            lines chosen by VERIF_SEED (content key modulo SLICES), (A) under the topological clock.
 
@@ -32,12 +33,13 @@ negotiate/tables/missing/<shared-by-wants|single-want>, negotiate/error/unexpect
 
 Helpers that vlib.py lacks live here (same as c11.py): per-signature expansion of a failing scenario
 (absorb), trace validation with named deviations and a labelling pass (validate), flush."""
-import json, os, re
+import json, os, re, threading
 import vlib
 
 PROP = "C08"
 ENGINE = "negotiate"
 SLICES = 4
+JVMS = 3      # concurrent TLC processes (the machine is shared)
 
 ALL_SIGS = ["negotiate/work/exponential/path-explosion", "negotiate/work/exponential/other",
             "negotiate/refuse/missing", "negotiate/refuse/spurious", "negotiate/acks/foreign",
@@ -260,7 +262,7 @@ def small_sample(sc):
 
 def universes(tier, seed):
     if tier == "quick":
-        return [("small", gen_cfg("NegotiateGen.small.cfg", nmin=1, nc=3, refmode="all", maxw=3, rich=True)),
+        return [("small", gen_cfg("NegotiateGen.small.cfg", nmin=1, nc=3, refmode="all", maxw=3, rich=False)),
                 ("n4", gen_cfg("NegotiateGen.n4.cfg", nmin=4, nc=4, refmode="some", maxw=2, rich=False, clocks_a=(1,))),
                 ("ladder", gen_cfg("NegotiateGen.ladder.cfg", mode="ladder", depths=(0, 2), ladder=(10, 40, 6)))]
     return [("small", gen_cfg("NegotiateGen.small.cfg", nmin=1, nc=3, refmode="all", maxw=3, rich=True)),
@@ -280,9 +282,34 @@ def run(tier, seed):
              "table_misses_not_predicted_by_the_model": 0}
     states = transitions = lines_total = runs = dev = devhit = 0
     classes, tlc_runs, samples = {}, [], []
-    for tag, cfg in universes(tier, seed):
-        scen = os.path.join(vlib.sub("scn"), "negotiate.%s.ndjson" % tag)
-        res = vlib.run_tlc("NegotiateGen", cfg, scn_out=scen, timeout=3000, heap="2g")
+    # the TLC runs of the universes share the cores (at most JVMS at a time); replays follow one by one
+    unis = universes(tier, seed)
+    results, errors = {}, []
+    sem = threading.Semaphore(JVMS)
+    start = threading.Lock()
+    vlib.spec_copy()
+
+    def gen(tag, cfg):
+        with sem:
+            # vlib.run_tlc numbers its metadir in its first instants without a lock: start the runs one second apart
+            start.acquire()
+            threading.Timer(1.0, start.release).start()
+            try:
+                scen = os.path.join(vlib.sub("scn"), "negotiate.%s.ndjson" % tag)
+                results[tag] = (scen, vlib.run_tlc("NegotiateGen", cfg, scn_out=scen, timeout=3000, heap="2g",
+                                                   workers=max(4, vlib.NCPU // 2)))
+            except Exception as e:   # reported from the main thread
+                errors.append(e)
+
+    ths = [threading.Thread(target=gen, args=u) for u in unis]
+    for t in ths:
+        t.start()
+    for t in ths:
+        t.join()
+    if errors:
+        raise errors[0]
+    for tag, cfg in unis:
+        scen, res = results[tag]
         vlib.require_ok(res, "NegotiateGen/" + cfg)
         if res.scn == 0:
             raise vlib.Inconclusive("NegotiateGen/%s printed no scenario" % cfg)
